@@ -5,3 +5,5 @@ package history
 // read-only accessors for the monitors
 func (h *History[T]) VerifLen() int   { return len(h.elements) }
 func (h *History[T]) VerifIndex() int { return h.index }
+
+func (h *History[T]) VerifAt(i int) T { return h.elements[i] }
